@@ -16,6 +16,28 @@ pub use tokio_real::*;
 
 pub mod sim;
 
+#[doc(hidden)]
+pub use tokio_real::select as __real_select;
+
+/// `select!` whose (unbiased) starting branch is drawn from the run's seeded PRNG instead of
+/// tokio's thread-local generator, which is seeded from the OS and would make a run depend on
+/// what the OS thread did before. Everything else is tokio's macro.
+#[macro_export]
+macro_rules! select {
+    ($(biased;)? else => $else:expr $(,)? ) => {{
+        $else
+    }};
+    (biased; $p:pat = $($t:tt)* ) => {
+        $crate::__real_select!(biased; $p = $($t)*)
+    };
+    ( $p:pat = $($t:tt)* ) => {
+        $crate::__real_select!(@{ start={ $crate::sim::select_start(BRANCHES) }; () } $p = $($t)*)
+    };
+    () => {
+        compile_error!("select! requires at least one branch.")
+    };
+}
+
 pub use sim::rt::spawn;
 
 pub mod task {
